@@ -115,7 +115,7 @@ class MorphInterp(ResultInterp):
             return Term("mean", of=tuple(x) if isinstance(x, (list, tuple)) else x)
         if name in ("float", "builtin:float") and a and isinstance(a[0], Term):
             return a[0]
-        if name.endswith("distance_transform_edt"):
+        if name.endswith("distance_transform_edt") or self.prog.is_anchor(name, "metrics.assd:_distance_transform_edt"):
             return Term("edt", of=a[0] if a else kwargs.get("input_array"), lib=name)
         if short == "_normalize_sequence":
             return Sym("spacing")
@@ -233,7 +233,7 @@ def check_chain(ctx: Ctx):
             st = e.kw["structure"]
             ok_st = isinstance(st, Term) and st.kind == "structure" and st.kw["connectivity"] == 1 and isinstance(st.kw["ndim"], Term) and st.kw["ndim"].kind == "ndim"
             ctx.decide("R07.2", f, f.node, c2 + ":structure", "the structuring element is the face-neighbour cross of the mask's dimensionality (connectivity 1)", ok_st, {"structure": repr(st)[:120]})
-        ctx.decide("R07.3", f, f.node, construct + ":edt", "the distance transform is the package's Euclidean transform of the complemented border", str(dt.kw.get("lib", "")).endswith("_distance_transform_edt") or "distance_transform_edt" in str(dt.kw.get("lib", "")), {"lib": dt.kw.get("lib")}, nontrivial=False)
+        ctx.decide("R07.3", f, f.node, construct + ":edt", "the distance transform is the package's Euclidean transform of the complemented border", "distance_transform_edt" in str(dt.kw.get("lib", "")) or prog.is_anchor(str(dt.kw.get("lib", "")), "metrics.assd:_distance_transform_edt"), {"lib": dt.kw.get("lib")}, nontrivial=False)
     want = sorted([("REF", "PRED"), ("PRED", "REF")])
     ctx.decide("R07.1", f, f.node, f"{f.qual}:orientations", "the two directed terms are prediction->reference and reference->prediction (each orientation exactly once)", sorted(orient) == want, {"got (target border, source border)": sorted(orient)})
 
